@@ -119,8 +119,8 @@ var fixedChainID = ids.ID{0x76, 0x6d, 0x78} // "vmx"
 // returned as initPanic (it is behaviour of the code under test, not of the
 // harness). The avalanchego `db` argument is an on-disk leveldb below dataDir
 // (snow.VM currently ignores it; it is persistent all the same).
-func startNode(t *testing.T, f *vm.Factory, dataDir string, genesisBytes, configBytes []byte) (n *node, initErr error, initPanic string) {
-	hvm, err := f.New()
+func startNode(t *testing.T, f *vm.Factory, dataDir string, genesisBytes, configBytes []byte, extra ...vm.Option) (n *node, initErr error, initPanic string) {
+	hvm, err := f.New(extra...)
 	if err != nil {
 		return nil, fmt.Errorf("factory: %w", err), ""
 	}
